@@ -16,7 +16,8 @@
 (*   login_call / login_ret    res = ok | auth | exc                       *)
 (*   inject    kind            the harness broke the server connection     *)
 (*   userdisc_call / userdisc_ret                                          *)
-(*   exec      res, arr        execute(): sent | refused | exc; frame seen *)
+(*   exec_call / exec          execute(): res = sent | refused | exc,      *)
+(*                             arr = the frame was seen by the server      *)
 (*   spawn     kind            the harness caused a background activity    *)
 (*   stop_call / stop_ret      stop_ret carries a snapshot                 *)
 (*   start                     start() returned, with snapshot             *)
@@ -45,12 +46,15 @@ VARIABLES tid, l,
           lmode,    \* reply mode of the login request the server saw last ("none" = consumed)
           gotS,     \* a session was initialised during the current login() call
           udc,      \* disconnect_server() of the application is in progress
+          clsg,     \* CLOSING of the connected server connection seen, CLOSED not yet
+          early,    \* SessionDestroyed events seen between that CLOSING and CLOSED
+          xc,       \* execute() in progress: [on, sess = a session existed at the call, clean = no loss pending]
           obsS,     \* SoulSeekClient.session was set at the last snapshot
           viol,     \* names of the property instances that were false in some state of the path
           told      \* MarksMode: the part of viol already reported
 
-tvars == <<vars, tid, l, now, wdDue, pend, atq, lst, lmode, gotS, udc, obsS, viol, told>>
-xvars == <<wdDue, pend, lst, lmode, gotS, udc>>
+tvars == <<vars, tid, l, now, wdDue, pend, atq, lst, lmode, gotS, udc, clsg, early, xc, obsS, viol, told>>
+xvars == <<wdDue, pend, lst, lmode, gotS, udc, clsg, early, xc>>
 
 T == Traces[tid]
 Rec == T[l]
@@ -75,6 +79,8 @@ TInit ==
   /\ bg = {} /\ open = {} /\ derived = {}
   /\ now = 0 /\ wdDue = 0 /\ pend = "none" /\ atq = FALSE
   /\ lst = "none" /\ lmode = "none" /\ gotS = FALSE /\ udc = FALSE /\ obsS = FALSE
+  /\ xc = [on |-> FALSE, sess |-> FALSE, clean |-> TRUE]
+  /\ clsg = FALSE /\ early = 0
   /\ viol = {} /\ told = {}
 
 \* The two silent steps are urgent: no record is consumed while one of them is enabled, so a
@@ -105,14 +111,14 @@ TStart ==
 TLoginCall ==
   /\ IsEv("login_call") /\ phase = "started" /\ lst = "none"
   /\ lst' = "called" /\ gotS' = FALSE /\ lmode' = "none"
-  /\ UNCHANGED <<vars, wdDue, pend, udc>> /\ NotQ /\ Consume
+  /\ UNCHANGED <<vars, wdDue, pend, udc, clsg, early, xc>> /\ NotQ /\ Consume
 
 \* the server saw a login request and answered in mode Rec.mode
 TFrameLogin ==
   /\ IsEv("frame") /\ Rec.f[1] = "login"
   /\ srv = "connected" /\ (lst = "called" \/ lpc = "auto")
   /\ lmode' = Rec.mode
-  /\ UNCHANGED <<vars, wdDue, pend, lst, gotS, udc>> /\ NotQ /\ Consume
+  /\ UNCHANGED <<vars, wdDue, pend, lst, gotS, udc, clsg, early, xc>> /\ NotQ /\ Consume
 
 \* a session exists only after the server accepted the login on this connection
 TSinit ==
@@ -120,7 +126,7 @@ TSinit ==
   /\ \/ lst = "called" /\ lpc = "idle" /\ LoginCore("user", "ok")
      \/ lpc = "auto" /\ LoginCore("auto", "ok")
   /\ lmode' = "none" /\ gotS' = TRUE
-  /\ UNCHANGED <<ovars, wdDue, pend, lst, udc>> /\ NotQ /\ Consume
+  /\ UNCHANGED <<ovars, wdDue, pend, lst, udc, clsg, early, xc>> /\ NotQ /\ Consume
 
 TLoginRet ==
   /\ IsEv("login_ret") /\ lst = "called"
@@ -133,14 +139,14 @@ TLoginRet ==
      \/ /\ Rec.res = "exc" /\ ~gotS /\ (srv # "connected" \/ pend # "none")   \* the connection broke under it
         /\ UNCHANGED vars /\ lmode' = "none"
   /\ lst' = "none" /\ gotS' = FALSE
-  /\ UNCHANGED <<wdDue, pend, udc>> /\ NotQ /\ Consume
+  /\ UNCHANGED <<wdDue, pend, udc, clsg, early, xc>> /\ NotQ /\ Consume
 
 \* the automatic login after a reconnect was answered with a refusal / garbage: it raises inside
 \* the event handler, nothing to see (silent, finite: lpc leaves "auto")
 AutoLoginFails ==
   /\ l <= Len(T) + 1 /\ AutoFailPending
   /\ LoginCore("auto", lmode) /\ lmode' = "none"
-  /\ UNCHANGED <<ovars, tid, l, now, wdDue, pend, atq, lst, gotS, udc, obsS>>
+  /\ UNCHANGED <<ovars, tid, l, now, wdDue, pend, atq, lst, gotS, udc, clsg, early, xc, obsS>>
 
 \* an advertisement frame: counts for the burst of the current session, up to its first quiescence
 TFrameAdvert ==
@@ -157,47 +163,52 @@ TFrameOther ==
 TInject ==
   /\ IsEv("inject") /\ pend = "none" /\ srv = "connected"
   /\ pend' = Rec.kind
-  /\ UNCHANGED <<vars, wdDue, lst, lmode, gotS, udc>> /\ NotQ /\ Consume
+  /\ UNCHANGED <<vars, wdDue, lst, lmode, gotS, udc, clsg, early, xc>> /\ NotQ /\ Consume
 
 KindOfReason(r) == CASE r = "eof" -> "eof" [] r = "timeout" -> "timeout" [] OTHER -> "reset"
 
-\* CLOSING carries nothing the model needs (the reason comes again with CLOSED)
+\* CLOSING: the reason comes again with CLOSED; remembered so that a SessionDestroyed emitted
+\* already now (the statement does not say at which of the two notifications) is counted
 TConnClosing ==
   /\ IsEv("conn") /\ Rec.st = "closing" /\ phase # "new"
-  /\ UNCHANGED <<vars, xvars>> /\ NotQ /\ Consume
+  /\ clsg' = (clsg \/ (phase = "started" /\ srv = "connected"))
+  /\ UNCHANGED <<vars, wdDue, pend, lst, lmode, gotS, udc, early, xc>> /\ NotQ /\ Consume
 
 \* CLOSED of a connected server connection: a loss (of the injected kind if the harness injected
 \* one, else of the kind the client reports) or the application's own disconnect
 TConnClosed ==
   /\ IsEv("conn") /\ Rec.st = "closed" /\ phase = "started" /\ srv = "connected"
   /\ IF udc /\ Rec.reason = "requested"
-       THEN UserDisconnectCore(0) /\ UNCHANGED pend
+       THEN UserDisconnectCore(early) /\ UNCHANGED pend
        ELSE /\ Rec.reason # "requested"
-            /\ ServerLossCore(IF pend # "none" THEN pend ELSE KindOfReason(Rec.reason), 0)
+            /\ ServerLossCore(IF pend # "none" THEN pend ELSE KindOfReason(Rec.reason), early)
             /\ pend' = "none"
   /\ wdDue' = IF watchdog' = "sleeping" THEN Due ELSE 0
-  /\ UNCHANGED <<ovars, lst, lmode, gotS, udc>> /\ NotQ /\ Consume
+  /\ clsg' = FALSE /\ early' = 0
+  /\ UNCHANGED <<ovars, lst, lmode, gotS, udc, xc>> /\ NotQ /\ Consume
 
 \* the watchdog's connect attempt begins / succeeds / fails
 TConnConnecting ==
   /\ IsEv("conn") /\ Rec.st = "connecting" /\ phase # "new"
   /\ WatchdogWakeCore /\ wdDue' = 0
-  /\ UNCHANGED <<ovars, pend, lst, lmode, gotS, udc>> /\ NotQ /\ Consume
+  /\ UNCHANGED <<ovars, pend, lst, lmode, gotS, udc, clsg, early, xc>> /\ NotQ /\ Consume
 
+\* the socket of a reconnect attempt (whether it is opened before or after CONNECTING is reported)
 TLinkServer ==
-  /\ IsEv("link") /\ Rec.to = "server" /\ phase # "new" /\ srv = "connecting"
+  /\ IsEv("link") /\ Rec.to = "server" /\ phase # "new"
+  /\ srv = "connecting" \/ (srv = "closed" /\ watchdog = "sleeping")
   /\ UNCHANGED <<vars, xvars>> /\ NotQ /\ Consume
 
 TConnConnected ==
   /\ IsEv("conn") /\ Rec.st = "connected" /\ phase # "new"
   /\ ReconnectOkCore /\ lmode' = "none"
-  /\ UNCHANGED <<ovars, wdDue, pend, lst, gotS, udc>> /\ NotQ /\ Consume
+  /\ UNCHANGED <<ovars, wdDue, pend, lst, gotS, udc, clsg, early, xc>> /\ NotQ /\ Consume
 
 TConnFailed ==
   /\ IsEv("conn") /\ Rec.st = "closed" /\ phase = "started" /\ srv = "connecting"
   /\ Rec.reason = "connect_failed"
   /\ ReconnectFailCore /\ wdDue' = Due
-  /\ UNCHANGED <<ovars, pend, lst, lmode, gotS, udc>> /\ NotQ /\ Consume
+  /\ UNCHANGED <<ovars, pend, lst, lmode, gotS, udc, clsg, early, xc>> /\ NotQ /\ Consume
 
 \* CLOSED events while stop() runs, or after it, change nothing (stop_call closed the model's
 \* connection already)
@@ -206,10 +217,13 @@ TConnClosedLate ==
   /\ UNCHANGED <<vars, xvars>> /\ NotQ /\ Consume
 
 TSdestroy ==
-  /\ IsEv("sdestroy") /\ srv = "closed"
-  /\ epi' = [epi EXCEPT !.n = @ + 1]
+  /\ IsEv("sdestroy")
+  /\ \/ /\ srv = "closed"
+        /\ epi' = [epi EXCEPT !.n = @ + 1] /\ early' = early
+     \/ /\ srv = "connected" /\ clsg /\ session
+        /\ early' = early + 1 /\ epi' = epi
   /\ UNCHANGED <<cfg, plan, phase, spc, srv, reason, session, lpc, sent, watchdog, losses, logins, cfails, lastExec,
-                 ovars, xvars>>
+                 ovars, wdDue, pend, lst, lmode, gotS, udc, clsg, xc>>
   /\ NotQ /\ Consume
 
 \* a peer socket was opened (by the library, or by the harness dialling a listening port)
@@ -220,17 +234,23 @@ TLinkPeer ==
 
 TUserDiscCall ==
   /\ IsEv("userdisc_call") /\ phase = "started" /\ ~udc /\ udc' = TRUE
-  /\ UNCHANGED <<vars, wdDue, pend, lst, lmode, gotS>> /\ NotQ /\ Consume
+  /\ UNCHANGED <<vars, wdDue, pend, lst, lmode, gotS, clsg, early, xc>> /\ NotQ /\ Consume
 TUserDiscRet ==
   /\ IsEv("userdisc_ret") /\ udc /\ Rec.res = "ok" /\ udc' = FALSE
-  /\ UNCHANGED <<vars, wdDue, pend, lst, lmode, gotS>> /\ NotQ /\ Consume
+  /\ UNCHANGED <<vars, wdDue, pend, lst, lmode, gotS, clsg, early, xc>> /\ NotQ /\ Consume
 
-\* execute(): the model supplies whether a session exists, the record what happened
+\* execute(): the model supplies whether a session exists when it is called, the record of the
+\* return what happened
+TExecCall ==
+  /\ IsEv("exec_call") /\ phase = "started" /\ ~xc.on
+  /\ xc' = [on |-> TRUE, sess |-> session, clean |-> (pend = "none" /\ srv = "connected")]
+  /\ UNCHANGED <<vars, wdDue, pend, lst, lmode, gotS, udc, clsg, early>> /\ NotQ /\ Consume
 TExec ==
-  /\ IsEv("exec") /\ phase = "started"
-  /\ lastExec' = [res |-> Rec.res, sess |-> session, arr |-> Rec.arr, clean |-> (pend = "none")]
+  /\ IsEv("exec") /\ xc.on
+  /\ lastExec' = [res |-> Rec.res, sess |-> xc.sess, arr |-> Rec.arr, clean |-> xc.clean]
+  /\ xc' = [xc EXCEPT !.on = FALSE]
   /\ UNCHANGED <<cfg, plan, phase, spc, srv, reason, session, lpc, sent, epi, watchdog, losses, logins, cfails,
-                 ovars, xvars>>
+                 ovars, wdDue, pend, lst, lmode, gotS, udc, clsg, early>>
   /\ NotQ /\ Consume
 
 TSpawn ==
@@ -242,7 +262,7 @@ TStopCall ==
   /\ IsEv("stop_call")
   /\ StopBeginCore(0)
   /\ wdDue' = 0 /\ pend' = "none"
-  /\ UNCHANGED <<ovars, lst, lmode, gotS, udc>> /\ NotQ /\ Consume
+  /\ UNCHANGED <<ovars, lst, lmode, gotS, udc, clsg, early, xc>> /\ NotQ /\ Consume
 
 StopServicesSilent ==
   /\ l <= Len(T) + 1 /\ StopServicesCore
@@ -282,7 +302,7 @@ TStep ==
   \/ TFrameAdvert \/ TFrameOther
   \/ TInject \/ TConnClosing \/ TConnClosed \/ TConnConnecting \/ TLinkServer \/ TConnConnected
   \/ TConnFailed \/ TConnClosedLate \/ TSdestroy \/ TLinkPeer
-  \/ TUserDiscCall \/ TUserDiscRet \/ TExec \/ TSpawn \/ TNote
+  \/ TUserDiscCall \/ TUserDiscRet \/ TExecCall \/ TExec \/ TSpawn \/ TNote
   \/ TStopCall \/ StopServicesSilent \/ TStopRet \/ TQ
   \/ Done
 
